@@ -229,7 +229,8 @@ def check(pid, tier, seed, only=None, workers=None, verbose=False):
     for old in (EVID / "replay").glob(f"{pid}-*.json"):
         old.unlink()
     violations, inconclusive = [], []
-    agg = dict(paths=0, queries=0, solver_s=0.0, unknown=0, pruned=0, obligations=0, discharged=0, cvc5=0, model_hits=0)
+    agg = dict(paths=0, queries=0, solver_s=0.0, unknown=0, pruned=0, obligations=0, discharged=0, cvc5=0, model_hits=0,
+               optimistic_forks=0)
     shapes = {}
     functions, stubs_used, samples = set(), set(), []
     outcomes_by_group = {}
@@ -307,6 +308,7 @@ def check(pid, tier, seed, only=None, workers=None, verbose=False):
             obligations=agg["obligations"], discharged=agg["discharged"], queries=agg["queries"],
             solver_s=round(agg["solver_s"], 2), solver_unknown=agg["unknown"], cvc5_fallbacks=agg["cvc5"],
             pruned_paths=agg["pruned"], traces_validated_against_impl=diffs,
+            undecided_order_branches_followed_both_ways=agg["optimistic_forks"],
             samples=samples[:12] or [dict(note="no completed path")],
             exhaustive=not inconclusive and not violations,
             known_findings_active=known_active, inconclusive=inconclusive[:20], **extra),
